@@ -15,7 +15,10 @@ META = {
     "technique": "Rocq proof (mutual induction on fuel over the MessagePack size calculator) + model-vs-implementation "
                  "correspondence + per-depth slice/reader oracle for all four formats",
     "claim": "For MessagePack the size calculator that decides the slice-mode verdict is proved never to panic, never to "
-             "report more than the input holds and always to terminate, for every byte string and depth limit; the model "
+             "report more than the input holds and always to terminate, for every byte string and depth limit; and the limit is proved "
+             "exact and shape-independent: for EVERY encodable value both document loops read its encoding to the end iff fewer than "
+             "1024 collections surround its innermost value, and deeper values are refused with the depth-limit error "
+             "(C18_msgpack_limit_exact, C18_verdict_depends_on_depth_only); the model "
              "(size calculator, rmp-serde depth counter, both document loops) is diffed against the implementation on all "
              "short byte strings, all markers and nesting windows around 1024 in every shape. For JSON/YAML/TOML the limits "
              "belong to third-party crates and are observed: same verdict slice vs reader at every depth in a window, one "
